@@ -60,14 +60,19 @@ Definition helper_slots (c : kcase) : list Q * list Q :=
 Definition helper_P0 (c : kcase) : Q :=
   let '(v, f_prior, f_day) := kc_P0 c in if p0_in_kernel_period_unit then v * f_day else v * f_prior.
 
+(* The state a call starts from.  Every scratch cell (work matrices, b, a, s_ivar, the K row of M_T, the default prior's
+   Lambda[0], all locals) is filled with JUNK rather than zeros: whatever an earlier call left there must not matter, so a
+   cell that is read before it is written shows up as a disagreement with the specification. *)
+Definition junk : sr := sr_ofQ (7 # 3).
 Definition init_state (c : kcase) : kst (F := sr) :=
   let z : sr := srZ 0 in
-  let zero1 : arr1 sr := fun _ => z in let zero2 : arr2 sr := fun _ _ => z in
+  let junk1 : arr1 sr := fun _ => junk in let junk2 : arr2 sr := fun _ _ => junk in
   let '(mu, la) := helper_slots c in
-  let MT : arr2 sr := fun i n => if Nat.eqb i 0 then z else qsr (nth (i - 1) (nth n (kc_trend c) []) 0) in
-  @mk_kst sr zero2 zero2 zero2 zero2 zero2 zero2 MT zero1 zero1
-         (of_list1 z (map qsr mu)) (of_list1 z (map qsr la)) (of_list1 z (map qsr (kc_ivar c))) zero1 (of_list1 z (map qsr (kc_rv c)))
-         0%Z 0%Z 0%Z z z z z z z z z z z.
+  let MT : arr2 sr := fun i n => if Nat.eqb i 0 then junk else qsr (nth (i - 1) (nth n (kc_trend c) []) 0) in
+  let La : arr1 sr := fun i => if Nat.eqb i 0 && negb (kc_fixedK c) then junk else of_list1 z (map qsr la) i in
+  @mk_kst sr junk2 junk2 junk2 junk2 junk2 junk2 MT junk1 junk1
+         (of_list1 z (map qsr mu)) La (of_list1 z (map qsr (kc_ivar c))) junk1 (of_list1 z (map qsr (kc_rv c)))
+         7%Z 7%Z 7%Z junk junk junk junk junk junk junk junk junk junk.
 
 Definition kep_table (c : kcase) : kepler_table :=
   match kc_theta c with
